@@ -6,6 +6,7 @@ package raft
 // only with -tags verif.
 
 import (
+	"reflect"
 	"sort"
 
 	pb "github.com/lni/dragonboat/v4/raftpb"
@@ -109,8 +110,18 @@ func VInspect(p *Peer) VState {
 		vr := VRead{Low: ctx.Low, High: ctx.High}
 		if st != nil {
 			vr.Index, vr.From = st.index, st.from
-			for id := range st.confirmed {
-				vr.Confirmed = append(vr.Confirmed, id)
+			// read through reflection so that the hook does not pin the
+			// representation of the confirmation set
+			cf := reflect.ValueOf(st).Elem().FieldByName("confirmed")
+			switch {
+			case cf.IsValid() && cf.Kind() == reflect.Map:
+				for _, k := range cf.MapKeys() {
+					vr.Confirmed = append(vr.Confirmed, k.Uint())
+				}
+			case cf.IsValid() && cf.CanUint():
+				for i := uint64(1); i <= cf.Uint(); i++ {
+					vr.Confirmed = append(vr.Confirmed, i)
+				}
 			}
 			sort.Slice(vr.Confirmed, func(i, j int) bool { return vr.Confirmed[i] < vr.Confirmed[j] })
 		}
